@@ -355,11 +355,12 @@ theorem cover_fibres (sz b n : Nat) (hb1 : 1 ≤ b) (hb2 : b ≤ sz) :
     `sheetCompatB …`, `invConsistentB t`, `edgeWordsOkB …`, `allTracesDefined …` evaluated to
     true" on a run means the theorems apply to exactly that input. -/
 theorem monitors_sound :
+    (∀ y, validSymB y = true → ValidSym y) ∧
     (∀ y, validTablesB y = true → ValidTables y) ∧
     (∀ ds n σ, sheetCompatB ds n σ = true ↔ SheetCompat ds n σ) ∧
     (∀ t, invConsistentB t = true → t.InvConsistent) ∧
     (∀ s t e2w, edgeWordsOkB s t e2w = true → EdgeWordsOk s t e2w) :=
-  ⟨fun _ h => validTablesB_sound h, fun _ _ _ => sheetCompatB_iff,
+  ⟨fun _ h => validSymB_sound h, fun _ h => validTablesB_sound h, fun _ _ _ => sheetCompatB_iff,
    fun _ h => invConsistentB_sound h, fun _ _ _ h => edgeWordsOkB_sound h⟩
 
 example : validTablesB sym1 = true ∧ sheetCompatB sym1.dset 2 swap2 = true ∧
